@@ -113,16 +113,41 @@ func (fi *FuncInfo) ensureFacts() {
 			cond, neg = u.X, true
 		}
 		ph, isPhi := cond.(*ssa.Phi)
-		if !isPhi {
+		// a join phi compared with nil (err := <several ways>; if err != nil): per branch, what the ways that can give a
+		// nil / non-nil value have in common
+		var nilPhi *ssa.Phi
+		nilEq := false
+		if bo, ok := cond.(*ssa.BinOp); ok && (bo.Op == token.EQL || bo.Op == token.NEQ) {
+			for q := 0; q < 2; q++ {
+				a, b2 := bo.X, bo.Y
+				if q == 1 {
+					a, b2 = b2, a
+				}
+				if kc, isC := b2.(*ssa.Const); isC && kc.Value == nil {
+					if p2, isP := a.(*ssa.Phi); isP {
+						nilPhi, nilEq = p2, bo.Op == token.EQL
+					} else if ta := fi.Term(a); ta.K == KPhi {
+						// the value was spilled to a local and loaded back (err is address-taken)
+						if p3, isP := ta.Val.(*ssa.Phi); isP {
+							nilPhi, nilEq = p3, bo.Op == token.EQL
+						}
+					}
+				}
+			}
+		}
+		if !isPhi && nilPhi == nil {
 			continue
 		}
 		for k := 0; k < 2; k++ {
 			wantTrue := (k == 0) != neg
 			var fs []Fact
 			var possible bool
-			if wantTrue {
+			switch {
+			case nilPhi != nil:
+				fs, possible = fi.nilImplies(nilPhi, wantTrue == nilEq, 0)
+			case wantTrue:
 				fs, possible = fi.trueImplies(ph, 0)
-			} else {
+			default:
 				fs, possible = fi.falseImplies(ph, 0)
 			}
 			if !possible || len(fs) == 0 {
@@ -443,7 +468,57 @@ func (p *Program) buildRetSummary(fn *ssa.Function, depth int) *RetSummary {
 		}
 		var acc map[string]Fact
 		first := true
+		if isErr {
+			// one outcome per way of returning (a single-exit function returns a phi: split by incoming edge)
+			nilc := mk(KConst, "nil", nil, nil)
+			for _, o := range fi.Outcomes() {
+				if i >= len(o.Vals) {
+					continue
+				}
+				rt := o.Results[i]
+				mayNil := true
+				if c, isC := rt.IsConst(); isC {
+					mayNil = c == "nil"
+				} else {
+					if rt.K == KPure || rt.K == KCall {
+						if cn := rt.Callee(); strings.HasPrefix(cn, "fmt.Errorf") || strings.HasPrefix(cn, "errors.New") {
+							mayNil = false
+						}
+					}
+					if o.Facts.Has(normalize(mk(KBin, "!=", nil, nil, rt, nilc)).Key()) {
+						mayNil = false
+					}
+				}
+				if !mayNil {
+					continue
+				}
+				exported := fi.exportFactsOf(o.Facts, o.Vals, o.At, i)
+				for j, rv := range o.Vals {
+					if j == i {
+						continue
+					}
+					jt := o.Results[j]
+					if jt.K == KConst || !exportable(jt) || jt.Contains(func(x *Term) bool { return x.K == KLoad }) {
+						continue
+					}
+					eq := Fact{T: normalize(mk(KBin, "==", nil, nil, mk(KRet, itoa(j), rv.Type(), nil), jt))}
+					exported[eq.Key()] = eq
+				}
+				if first {
+					acc, first = exported, false
+				} else {
+					for k := range acc {
+						if _, ok := exported[k]; !ok {
+							delete(acc, k)
+						}
+					}
+				}
+			}
+		}
 		for _, b := range fn.Blocks {
+			if isErr {
+				break
+			}
 			if len(b.Instrs) == 0 || b == b.Parent().Recover {
 				continue
 			}
@@ -628,6 +703,92 @@ func (fi *FuncInfo) trueImplies(v ssa.Value, depth int) (out []Fact, possible bo
 	return out, true
 }
 
+// nilImplies: facts that hold whenever the pointer/interface value v is nil (wantNil) or non-nil (!wantNil): for a join
+// phi (err := f(); ...; the value of a result variable of an inlined or single-exit body), the facts common to the
+// incoming edges over which the value can be nil / non-nil.
+func (fi *FuncInfo) nilImplies(v ssa.Value, wantNil bool, depth int) (out []Fact, possible bool) {
+	if depth > 6 {
+		return nil, true
+	}
+	t := fi.Term(v)
+	if c, ok := t.IsConst(); ok {
+		return nil, (c == "nil") == wantNil
+	}
+	if !wantNil {
+		// cannot tell more about a non-nil value
+		if _, isPhi := v.(*ssa.Phi); !isPhi {
+			return nil, true
+		}
+	} else if t.K == KPure || t.K == KCall {
+		if cn := t.Callee(); strings.HasPrefix(cn, "fmt.Errorf") || strings.HasPrefix(cn, "errors.New") {
+			return nil, false
+		}
+	}
+	x, ok := v.(*ssa.Phi)
+	if !ok {
+		nilc := mk(KConst, "nil", nil, nil)
+		op := "=="
+		if !wantNil {
+			op = "!="
+		}
+		f := Fact{T: normalize(mk(KBin, op, nil, nil, t, nilc))}
+		out = append(out, f)
+		out = append(out, fi.expandFact(f, depth)...)
+		return out, true
+	}
+	var acc map[string]Fact
+	first := true
+	for i, e := range x.Edges {
+		pred := x.Block().Preds[i]
+		sub, ok := fi.nilImplies(e, wantNil, depth+1)
+		if !ok {
+			continue
+		}
+		cand := map[string]Fact{}
+		for k, f := range fi.factsIn[pred] {
+			cand[k] = f
+		}
+		for _, f := range fi.edgeFacts[[2]int{pred.Index, x.Block().Index}] {
+			cand[f.Key()] = f
+		}
+		// the value that arrives over this edge is known there to be non-nil (nil): this way does not contribute
+		if et := fi.Term(e); et.K != KConst {
+			nilc := mk(KConst, "nil", nil, nil)
+			op := "!="
+			if !wantNil {
+				op = "=="
+			}
+			if _, refuted := cand[normalize(mk(KBin, op, nil, nil, et, nilc)).Key()]; refuted {
+				continue
+			}
+		}
+		for _, f := range sub {
+			cand[f.Key()] = f
+		}
+		if first {
+			acc, first = cand, false
+		} else {
+			for k := range acc {
+				if _, ok := cand[k]; !ok {
+					delete(acc, k)
+				}
+			}
+		}
+	}
+	if first {
+		return nil, false
+	}
+	var keys []string
+	for k := range acc {
+		keys = append(keys, k)
+	}
+	sort.Strings(keys)
+	for _, k := range keys {
+		out = append(out, acc[k])
+	}
+	return out, true
+}
+
 // falseImplies is the mirror image of trueImplies: facts that hold whenever v is false.
 func (fi *FuncInfo) falseImplies(v ssa.Value, depth int) (out []Fact, possible bool) {
 	if depth > 6 {
@@ -713,7 +874,11 @@ func (fi *FuncInfo) falseImplies(v ssa.Value, depth int) (out []Fact, possible b
 // exportFacts rewrites the facts at a return site into the callee's interface
 // vocabulary and drops those that mention callee-local state.
 func (fi *FuncInfo) exportFacts(ret *ssa.Return, skip int, extra ...Fact) map[string]Fact {
-	facts := fi.FactsAt(ret)
+	return fi.exportFactsOf(fi.FactsAt(ret), ret.Results, ret, skip, extra...)
+}
+
+// exportFactsOf is exportFacts for one outcome of a return (see Outcomes): the facts and result values of that way.
+func (fi *FuncInfo) exportFactsOf(facts FactSet, results []ssa.Value, ret ssa.Instruction, skip int, extra ...Fact) map[string]Fact {
 	if len(extra) > 0 {
 		all := FactSet{}
 		for k, f := range facts {
@@ -726,7 +891,7 @@ func (fi *FuncInfo) exportFacts(ret *ssa.Return, skip int, extra ...Fact) map[st
 	}
 	// replacement map: returned values and their fields
 	repl := map[string]*Term{}
-	for i, rv := range ret.Results {
+	for i, rv := range results {
 		if i == skip {
 			continue
 		}
@@ -734,6 +899,17 @@ func (fi *FuncInfo) exportFacts(ret *ssa.Return, skip int, extra ...Fact) map[st
 		retT := mk(KRet, itoa(i), rv.Type(), nil)
 		if rt.K != KConst {
 			repl[rt.Key()] = retT
+		}
+		// a local struct read after a join: what it holds on this way is its content at the end of the incoming block
+		if ld, ok := rv.(*ssa.UnOp); ok && ld.Op == token.MUL {
+			if al, ok := ld.X.(*ssa.Alloc); ok && ret != ssa.Instruction(nil) {
+				if _, isRet := ret.(*ssa.Return); !isRet {
+					if ct := fi.contentTerm(al, ret); ct != nil && ct.K == KLoad {
+						rt = ct
+						repl[rt.Key()] = retT
+					}
+				}
+			}
 		}
 		// struct built field by field in a local
 		if rt.K == KLoad && rt.A[0].K == KAlloc {
@@ -1217,10 +1393,20 @@ func (fi *FuncInfo) extractTerm(call *ssa.Call, i int) *Term {
 type Outcome struct {
 	Ret     *ssa.Return
 	Results []*Term
+	Vals    []ssa.Value
 	Facts   FactSet
+	From    *ssa.BasicBlock // the block the way comes from, when the return was split by incoming edge
+	At      ssa.Instruction // the point whose memory state the results are read in: the return, or the end of the incoming edge's block
 }
 
-func (fi *FuncInfo) Outcomes() []Outcome {
+func (fi *FuncInfo) Outcomes() []Outcome { return fi.outcomes(false) }
+
+// OutcomesByEdge splits every return whose block only reads and computes by incoming edge, also when the results are
+// not phis (if c { work }; return nil: the ways with and without the work are separate outcomes). From is the block the
+// way comes from (nil for an unsplit return).
+func (fi *FuncInfo) OutcomesByEdge() []Outcome { return fi.outcomes(true) }
+
+func (fi *FuncInfo) outcomes(always bool) []Outcome {
 	var out []Outcome
 	fn := fi.Fn
 	for _, b := range fn.Blocks {
@@ -1231,29 +1417,62 @@ func (fi *FuncInfo) Outcomes() []Outcome {
 		if !ok {
 			continue
 		}
-		split := false
-		for _, r := range ret.Results {
+		split := always && len(b.Preds) >= 2
+		// the phi a result denotes: directly, or through the spill around deferred calls (*t = phi; rundefers; return *t)
+		phiOf := func(r ssa.Value) *ssa.Phi {
 			if ph, ok := r.(*ssa.Phi); ok && ph.Block() == b {
+				return ph
+			}
+			if rt := fi.Term(r); rt.K == KPhi {
+				if ph, ok := rt.Val.(*ssa.Phi); ok && ph.Block() == b {
+					return ph
+				}
+			}
+			return nil
+		}
+		for _, r := range ret.Results {
+			if phiOf(r) != nil {
 				split = true
 			}
 		}
 		// only phis (and the return) in the block, so nothing between the join and the return changes the facts
+		// instructions between the join and the return matter only if a result is read from memory there (a local
+		// struct): facts about SSA values and versioned loads that hold on an incoming edge still hold at the return
+		readsMemory := false
+		for _, r := range ret.Results {
+			if ld, ok := r.(*ssa.UnOp); ok && ld.Op == token.MUL && ld.Block() == b && phiOf(r) == nil {
+				readsMemory = true
+			}
+		}
 		for _, in := range b.Instrs[:len(b.Instrs)-1] {
-			if _, isPhi := in.(*ssa.Phi); !isPhi {
+			if !readsMemory {
+				break
+			}
+			switch x := in.(type) {
+			case *ssa.Phi, *ssa.UnOp, *ssa.FieldAddr, *ssa.IndexAddr, *ssa.Extract, *ssa.BinOp, *ssa.Convert, *ssa.ChangeType, *ssa.MakeInterface, *ssa.DebugRef, *ssa.RunDefers:
+				// reads and pure computations (and the deferred unlock) between the join and the return
+			case *ssa.Store:
+				// the spill of a result into its private slot
+				if _, isAl := x.Addr.(*ssa.Alloc); !isAl {
+					split = false
+				}
+			default:
 				split = false
 			}
 		}
 		if !split {
-			o := Outcome{Ret: ret, Facts: fi.FactsAt(ret)}
+			o := Outcome{Ret: ret, Facts: fi.FactsAt(ret), At: ret}
 			for _, r := range ret.Results {
 				o.Results = append(o.Results, fi.Term(r))
+				o.Vals = append(o.Vals, r)
 			}
 			out = append(out, o)
 			continue
 		}
 		for i, pred := range b.Preds {
-			o := Outcome{Ret: ret, Facts: FactSet{}}
+			o := Outcome{Ret: ret, Facts: FactSet{}, At: ret, From: pred}
 			if n := len(pred.Instrs); n > 0 {
+				o.At = pred.Instrs[n-1]
 				for k, f := range fi.FactsAt(pred.Instrs[n-1]) {
 					o.Facts[k] = f
 				}
@@ -1262,13 +1481,90 @@ func (fi *FuncInfo) Outcomes() []Outcome {
 				o.Facts[f.Key()] = f
 			}
 			for _, r := range ret.Results {
-				if ph, ok := r.(*ssa.Phi); ok && ph.Block() == b {
+				if ph := phiOf(r); ph != nil {
 					o.Results = append(o.Results, fi.Term(ph.Edges[i]))
+					o.Vals = append(o.Vals, ph.Edges[i])
 				} else {
 					o.Results = append(o.Results, fi.Term(r))
+					o.Vals = append(o.Vals, r)
 				}
 			}
 			out = append(out, o)
+		}
+	}
+	return out
+}
+
+// FeasiblePhiEdges tells, for a join phi and a later program point at, which incoming edges of the phi's block can have
+// been taken by an execution that reaches at: an edge is excluded when a sibling phi of the same block (the error or ok
+// flag that travels with a result: v, err := <several ways>) has, on that edge, a value that contradicts a fact at at
+// (err == nil at the use, but the edge carries fmt.Errorf(..); ok is true at the use, but the edge carries false).
+func (fi *FuncInfo) FeasiblePhiEdges(ph *ssa.Phi, at ssa.Instruction) []bool {
+	out := make([]bool, len(ph.Edges))
+	for i := range out {
+		out[i] = true
+	}
+	facts := fi.FactsAt(at)
+	blk := ph.Block()
+	nilc := mk(KConst, "nil", nil, nil)
+	for _, in := range blk.Instrs {
+		sib, ok := in.(*ssa.Phi)
+		if !ok {
+			break
+		}
+		st := fi.Term(sib)
+		if st.K != KPhi {
+			continue
+		}
+		isNil := facts.Has(normalize(mk(KBin, "==", nil, nil, st, nilc)).Key())
+		notNil := facts.Has(normalize(mk(KBin, "!=", nil, nil, st, nilc)).Key())
+		isTrue := facts.Has(st.Key())
+		isFalse := facts.Has("!" + st.Key())
+		if !isNil && !notNil && !isTrue && !isFalse {
+			continue
+		}
+		for i, e := range sib.Edges {
+			et := fi.Term(e)
+			c, isC := et.IsConst()
+			pred := blk.Preds[i]
+			predFacts := FactSet{}
+			if n := len(pred.Instrs); n > 0 {
+				for k, f := range fi.FactsAt(pred.Instrs[n-1]) {
+					predFacts[k] = f
+				}
+			}
+			for _, f := range fi.EdgeFacts(pred, blk) {
+				predFacts[f.Key()] = f
+			}
+			switch {
+			case isNil:
+				definitelyNonNil := false
+				if et.K == KPure || et.K == KCall {
+					cn := et.Callee()
+					definitelyNonNil = strings.HasPrefix(cn, "fmt.Errorf") || strings.HasPrefix(cn, "errors.New")
+				}
+				if !isC && predFacts.Has(normalize(mk(KBin, "!=", nil, nil, et, nilc)).Key()) {
+					definitelyNonNil = true
+				}
+				if definitelyNonNil {
+					out[i] = false
+				}
+			case notNil:
+				if isC && c == "nil" {
+					out[i] = false
+				}
+				if !isC && predFacts.Has(normalize(mk(KBin, "==", nil, nil, et, nilc)).Key()) {
+					out[i] = false
+				}
+			case isTrue:
+				if isC && c == "false" {
+					out[i] = false
+				}
+			case isFalse:
+				if isC && c == "true" {
+					out[i] = false
+				}
+			}
 		}
 	}
 	return out
@@ -1278,6 +1574,30 @@ func (fi *FuncInfo) Outcomes() []Outcome {
 // equal, given the facts that hold at instruction at (v, ok := helper(x); if !ok { continue }; use(v): at the use, v is
 // the term the helper returns together with ok == true).
 func (fi *FuncInfo) RefineAt(t *Term, at ssa.Instruction) *Term {
+	// a join phi whose feasible edges (see FeasiblePhiEdges) all carry the same value is that value
+	t = t.Subst(func(x *Term) *Term {
+		ph, ok := x.Val.(*ssa.Phi)
+		if !ok || x.K != KPhi {
+			return nil
+		}
+		feas := fi.FeasiblePhiEdges(ph, at)
+		var only *Term
+		n := 0
+		for i, e := range ph.Edges {
+			if !feas[i] {
+				continue
+			}
+			et := fi.Term(e)
+			if only == nil || only.Key() != et.Key() {
+				n++
+				only = et
+			}
+		}
+		if n == 1 && only.Key() != x.Key() {
+			return only
+		}
+		return nil
+	})
 	facts := fi.FactsAt(at)
 	for round := 0; round < 3; round++ {
 		changed := false
